@@ -393,7 +393,7 @@ func runC01(c *Ctx) {
 	r := c.Res
 	r.Rule = "program with >=1 map call or disabled binding, >=2 jobs, run to completion; distinct by (program, order in which jobs finished)"
 	start := time.Now()
-	nGen, nSched := 150, 2
+	nGen, nSched := 120, 2
 	if c.Thorough {
 		nGen, nSched = 1200, 3
 	}
